@@ -659,7 +659,9 @@ class BaseNodeVisitor(ast.NodeVisitor):
             ):
                 self.used_ignores.add(lineno - 1)
                 return
-            prev_line = lines[lineno - 2].strip()
+            # lineno - 2 is -1 for an error on the first line: there is no previous
+            # line then, and lines[-1] would be the *last* line of the file.
+            prev_line = lines[lineno - 2].strip() if lineno >= 2 else ""
             if (
                 prev_line == ignore_comment
                 or error_code is not None
